@@ -88,6 +88,8 @@ STAGES = {
             S("mixed", "^TestC06Mixed$", quick=3000, thorough=200000, shards=(2, 16))],
     "C19": [S("reads", "^TestC19$", quick=2500, thorough=120000, shards=(3, 16)),
             S("writes", "^TestC19Write$", quick=800, thorough=40000, shards=(1, 8)),
+            S("writes-concurrent", "^TestC19WriteConcurrent$", quick=300, thorough=20000, shards=(2, 8)),
+            S("writes-concurrent-race", "^TestC19WriteConcurrent$", quick=60, thorough=4000, shards=(2, 8), race=True),
             S("concurrent-race", "^TestC19Concurrent$", quick=300, thorough=20000, shards=(2, 16), race=True)],
     "C20": [S("lag", "^TestC20Lag$", shards=(6, 6)),
             S("histories", "^TestC20$", quick=120, thorough=1500, shards=(6, 16), shrinktime="90s")],
